@@ -266,8 +266,12 @@ def make_http_settings(root: Path, url: str, **kw):
     from apt_mirror.download.slow_rate_protector import SlowRateProtectorFactory
     from apt_mirror.download.url import URL
     from . import sim
+    try:
+        writer = sim.make_sync_writer_factory()()
+    except TypeError:       # the tool's writer interface changed; download_one installs the tool's own factory anyway
+        writer = None
     return DownloaderSettings(
-        url=URL.from_string(url), target_root_path=root, aiofile_factory=sim.make_sync_writer_factory()(),
+        url=URL.from_string(url), target_root_path=root, aiofile_factory=writer,
         proxy=kw.get("proxy") or Proxy(False, None, None, None, None), http2_disable=kw.get("http2_disable", False),
         user_agent=kw.get("user_agent", "verif-agent/1.0"), semaphore=asyncio.Semaphore(4),
         slow_rate_protector_factory=SlowRateProtectorFactory(False, 15, 1), rate_limiter=None,
